@@ -58,7 +58,10 @@ def run_e3(ctx, prop, maxlen, word_filter=None, ms_variants=((2, 2),), suffix_st
                 c['samples'].append(s)
         for cx in r['cex']:
             if cx['name'] in OWN[prop]:
-                cexs.append(dict(cx, harness='e3.run_words'))
+                cx = dict(cx, harness='e3.run_words')
+                if (cx.get('variant') or {}).get('suffix_style') == 5 and cx['name'] == 'accepted-iff-documented-path' and 'rejects' in str(cx.get('detail')):
+                    cx['known'] = 'KF-C01-suffixed-first-occurrence'
+                cexs.append(cx)
     c['distinct_nontrivial'] = c['words_accepted'] + c['words_rejected']
     c['bounds']['e3'] = {'word_length_executed': maxlen, 'each_step_kind_at_most': 2, 'multiscale (num_scales, scale_factor)': [list(x) for x in ms_variants],
                          'suffix_styles': list(suffix_styles), 'with_filling': list(fillings),
